@@ -136,6 +136,26 @@ func c10Probes() []c10Probe {
 		call("cosine_distance", call("list", n(1), n(2), n(3)), call("list", iv(), n(1))),
 		call("l2_distance", call("split", v(), s(",")), call("list", n(1), n(2), n(3), n(4), n(5))),
 	}
+	// every consumer of an integer applied to every producer of one (the result
+	// of one function is the argument of the next, whatever Go type carries it)
+	for _, p := range []func() *ref.Expr{
+		func() *ref.Expr { return call("len", sp()) },
+		func() *ref.Expr { return call("len", call("split", v(), s(","))) },
+		func() *ref.Expr { return call("len", call("list", iv(), n(2), n(3))) },
+		func() *ref.Expr { return call("len", call("list", k(), v())) },
+		func() *ref.Expr { return call("len", call("float_list", fv(), ref.Fl(0.5))) },
+		func() *ref.Expr { return call("strlen", v()) },
+		func() *ref.Expr { return ref.Idx(call("list", iv(), n(2)), n(0)) },
+		func() *ref.Expr { return ref.Idx(call("int_list", n(4), iv()), n(1)) },
+		func() *ref.Expr { return call("int", call("str", iv())) },
+	} {
+		ps = append(ps,
+			call("str", p()), call("upper", call("str", p())), call("strlen", p()), call("strlen", call("str", p())), call("int", call("str", p())),
+			call("float", p()), call("int", p()), call("is_int", call("str", p())), call("join", s("-"), p(), n(7)), call("join", s(""), k(), p()),
+			call("list", p(), n(1)), call("int_list", n(1), p()), ref.Idx(call("list", n(0), p()), n(1)), ref.Bin("+", p(), n(1)), ref.Bin("*", n(2), p()),
+			call("split", call("str", p()), s("1")), call("len", call("list", p(), p())),
+		)
+	}
 	var out []c10Probe
 	for _, e := range ps {
 		out = append(out, c10Probe{e, false})
